@@ -58,18 +58,24 @@ def line_col_table(text):
     return tab
 
 
-def anchor(text, toks, tab, line, col):
-    """a position as (token index, offset inside the token) | ('gap', index of the next token) | ('eof', distance)"""
+def anchor(text, toks, tab, line, col, is_end=False):
+    """a position as (token index, offset inside the token) | ('gap', index of the next token) | ('eof', distance).
+    A start position that coincides with a token start is that token's start; an end position that coincides with a token end is that
+    token's end (adjacent tokens share the offset: `name;`)."""
     rev = {lc: o for o, lc in reversed(list(enumerate(tab)))}
     o = rev.get((line, col))
     if o is None:
         last = tab[-1]
         return ('eof', (line - last[0], col - last[1]))
-    for k, (s, e, kind) in enumerate(toks):
-        if kind == 'comment': continue
+    real = [(k, t) for k, t in enumerate(toks) if t[2] != 'comment']
+    if is_end:
+        for k, (s, e, kind) in real:
+            if o == e: return ('tok', k, e - s)
+    for k, (s, e, kind) in real:
         if s <= o < e: return ('tok', k, o - s)
-        if o == e and (k + 1 == len(toks) or toks[k + 1][0] > o): return ('tok', k, o - s)     # just after the token
-    return ('gap', sum(1 for s, e, kd in toks if kd != 'comment' and e <= o))
+    for k, (s, e, kind) in real:
+        if o == e: return ('tok', k, e - s)
+    return ('gap', sum(1 for k, (s, e, kd) in real if e <= o))
 
 
 def tok_index_without_comments(toks):
@@ -94,6 +100,13 @@ class AnalysisInvariance(DesignPart):
     def sites(self, D):
         lib, fn, text = D['files'][0]
         toks = vhdl_tokens(text)
+        if self.kind == 'case' and D.get('site_lines') is not None:
+            tab = line_col_table(text)
+            s = []
+            for ln in D['site_lines']:
+                on_line = [k for k, t in enumerate(toks) if t[2] == 'ident' and tab[t[0]][0] == ln]
+                s.append(on_line[1])              # `type NAME is` / `subtype NAME is` / `function NAME`: the declared name
+            return toks, s
         if self.kind == 'case':
             s = [k for k, t in enumerate(toks) if t[2] == 'ident']
         else:
@@ -142,12 +155,23 @@ class AnalysisInvariance(DesignPart):
                 if '\n' not in text[gap_start:s] or any(t[2] == 'comment' and gap_start <= t[0] < s for t in toks): raise Infeasible()
                 newtext = text[:gap_start] + ' ' + text[s:]
             if how != 0: chars = [BV(ord(c), 32) for c in newtext]
-        pr = kit.new_project(ctx, copy=not inp.symbolic)
+        if D.get('incremental'):
+            # a large design (ieee): start from the loaded and analysed project and update the one file (everything that depends on it is re-analysed)
+            pr = base if inp.symbolic else base.clone(ctx)
+            if inp.symbolic: ctx.statics = base.statics
+            try:
+                pr.set_text(ctx, fname, chars); pr.update(ctx, fname)
+                B = [kit.diag_obs(d) for d in pr.analyse(ctx)]
+            except Panic as p:
+                ctx.model(); raise Violation('parsing or analysis of the re-written design panics: ' + str(p), 'panic')
+            pr = None
+        else: pr = kit.new_project(ctx, copy=not inp.symbolic)
         # the iteration order of the hash maps of the analyser is an environment choice (declaration order is re-established by sorting on positions)
         if self.kind == 'layout' and inp.symbolic: ctx.hash_rev = ctx.branch(inp.bool('hash order reversed'))
         try:
-            pr.set_text(ctx, fname, chars); pr.map_file(ctx, fname, lib); pr.update(ctx, fname)
-            B = [kit.diag_obs(d) for d in pr.analyse(ctx)]
+            if pr is not None:
+                pr.set_text(ctx, fname, chars); pr.map_file(ctx, fname, lib); pr.update(ctx, fname)
+                B = [kit.diag_obs(d) for d in pr.analyse(ctx)]
         except Panic as p:
             ctx.model(); raise Violation('parsing or analysis of the re-written design panics: ' + str(p), 'panic')
         if not verify: return [obs_show(d) for d in B]
@@ -187,10 +211,10 @@ class AnalysisInvariance(DesignPart):
         def rel(d, tx, tk, tb, m):
             if d[1] == 'SyntaxError': return (d[1], obs_show(d[2]))
             p = obs_show(d[0])
-            def an(l, c):
-                a = anchor(tx, tk, tb, l, c)
+            def an(l, c, is_end=False):
+                a = anchor(tx, tk, tb, l, c, is_end)
                 return ('tok', m[a[1]], a[2]) if a[0] == 'tok' else a
-            return (d[1], obs_show(d[2]), an(p[1], p[2]), an(p[3], p[4]), tuple((obs_show(r[1]),) for r in d[3]))
+            return (d[1], obs_show(d[2]), an(p[1], p[2]), an(p[3], p[4], True), tuple((obs_show(r[1]),) for r in d[3]))
         RA = sorted(map(repr, (rel(d, text, tA, tabA, mA) for d in A))); RB = sorted(map(repr, (rel(d, newtext, tB, tabB, mB) for d in B)))
         ctx.obligations += 1
         if RA != RB:
@@ -225,7 +249,7 @@ class AnalysisInvariance(DesignPart):
 
     def case_of(self, w):
         D, t = self.text_of(w)
-        D2 = dict(D); D2['files'] = [(D['files'][0][0], D['files'][0][1], t)]
+        D2 = dict(D); D2['files'] = [(D['files'][0][0], D['files'][0][1], t)] + list(D['files'][1:])
         return self.native_case(D2, {}), self.native_case(D, {})
 
     def replay_case(self, chk, w, v):
@@ -245,10 +269,10 @@ class AnalysisInvariance(DesignPart):
                 tabA = line_col_table(text); tabB = line_col_table(newtext)
                 def rel(d, tx, tk, tb, m):
                     if d[1] == 'SyntaxError': return (d[1], d[2])
-                    def an(l, c):
-                        a = anchor(tx, tk, tb, l, c)
+                    def an(l, c, is_end=False):
+                        a = anchor(tx, tk, tb, l, c, is_end)
                         return ('tok', m[a[1]], a[2]) if a[0] == 'tok' else a
-                    return (d[1], d[2], an(d[0][1], d[0][2]), an(d[0][3], d[0][4]))
+                    return (d[1], d[2], an(d[0][1], d[0][2]), an(d[0][3], d[0][4], True))
                 if sorted(map(repr, (rel(d, text, tA, tabA, mA) for d in da))) != sorted(map(repr, (rel(d, newtext, tB, tabB, mB) for d in db))): return True
         return False
 
@@ -260,8 +284,9 @@ class AnalysisInvariance(DesignPart):
                 w = {'design': di, 'site': rng.randrange(400), 'how': rng.randrange(4), 'blank': rng.choice([32, 9, 10, 13])}
                 D = self.designs[di]; toks, sites = self.sites(D); k = sites[w['site'] % len(sites)]; s, e, _ = toks[k]; text = D['files'][0][2]
                 if self.kind == 'case':
-                    for j in range(s, e):
-                        if text[j].isalpha(): w[f'l{j - s}'] = ord(rng.choice([text[j].lower(), text[j].upper()]))
+                    letters = [j for j in range(s, e) if text[j].isalpha()]
+                    w['letter'] = rng.randrange(len(letters))
+                    for j in {letters[w['letter']], letters[-1]}: w[f'l{j - s}'] = ord(rng.choice([text[j].lower(), text[j].upper()]))
                 cases.append(w)
         outs = chk.native.run('analyse', [self.case_of(w)[0] for w in cases])
         bad = []
